@@ -247,3 +247,45 @@ def expected_canonical(p) -> List[Dict[str, Any]]:
                 q[pos] = b
             out.append(q)
     return out
+
+
+def quantifier_problem(pred, enclosing=()) -> Optional[str]:
+    """(iv) of C02: every quantifier uses its variable in its body, not in its own domain, and does not re-bind
+    a variable of an enclosing quantifier. Written from the statement over pred specs."""
+    def mentions(s, v) -> bool:
+        if s[0] == 'var':
+            return s[1] == v
+        return any(mentions(t, v) for t in s[1:] if isinstance(t, tuple))
+
+    def walk(s, enc):
+        if s[0] == 'q':
+            _, _q, v, dom, body = s
+            for e in enc:
+                if v == e:
+                    return 'quantifier re-binds an enclosing variable'
+            if mentions(dom, v):
+                return 'quantified variable used in its own domain'
+            if not mentions(body, v):
+                return 'quantified variable never used'
+            r = walk(dom, enc)
+            if r:
+                return r
+            return walk(body, enc + (v,))
+        for t in s[1:]:
+            if isinstance(t, tuple):
+                r = walk(t, enc)
+                if r:
+                    return r
+        return None
+
+    return None if pred is None else walk(pred, tuple(enclosing))
+
+
+def property_verdict(p) -> Optional[str]:
+    """C02 (i)-(iv): None = must be accepted, else the reason for a sanity error"""
+    for pos in ('activator', 'terminator', 'trigger', 'behaviour'):
+        for e in simple_events(p.get(pos)):
+            r = quantifier_problem(e[3])
+            if r:
+                return f'{pos}: {r}'
+    return binding_verdict(p)
